@@ -42,7 +42,14 @@ func replayLazyOnce(b loBeh, variant int) (finds []Finding, inconclusive string)
 	sink := &lockedLines{}
 	core := zapcore.NewCore(zapcore.NewJSONEncoder(zapcore.EncoderConfig{MessageKey: "m", SkipLineEnding: true}), sink, zapcore.DebugLevel)
 	base := zap.New(core)
-	lazy := base.WithLazy(zap.Stringer("lz", loStringer{g, &calls}))
+	lazy := base
+	var lazyS *zap.SugaredLogger
+	if variant >= 4 {
+		// the sugared front end: loosely typed key/value arguments
+		lazyS = base.Sugar().WithLazy("lz", loStringer{g, &calls})
+	} else {
+		lazy = base.WithLazy(zap.Stringer("lz", loStringer{g, &calls}))
+	}
 	var panics sync.Map
 	use := func(p string) func() {
 		return func() {
@@ -58,6 +65,10 @@ func replayLazyOnce(b loBeh, variant int) (finds []Finding, inconclusive string)
 				lazy.With(zap.String("child", p)).Info("from-" + p)
 			case 2:
 				lazy.Sugar().Infow("from-"+p, "k", 1)
+			case 4:
+				lazyS.Infow("from-"+p, "k", 1)
+			case 5:
+				lazyS.With("child", p).Infof("from-%s", p)
 			default:
 				if ce := lazy.Check(zapcore.InfoLevel, "from-"+p); ce != nil {
 					ce.Write()
@@ -155,6 +166,11 @@ func (s *lockedLines) all() []string {
 
 // runLazyOnce model-checks LazyOnce.tla (with its spec mutants) and replays every schedule.
 func runLazyOnce(c *Ctx, keyPrefix string, keep func(key string) bool) {
+	runLazyOnceV(c, keyPrefix, keep, []int{0, 1, 2, 3})
+}
+
+// runLazyOnceV: variants 0-3 go through Logger.WithLazy, 4-5 through SugaredLogger.WithLazy.
+func runLazyOnceV(c *Ctx, keyPrefix string, keep func(key string) bool, variants []int) {
 	c.MustTLC(TLCOpts{Module: "LazyOnce", Cfg: "LazyOnce.check"})
 	c.MustTLC(TLCOpts{Module: "LazyOnce", Cfg: "LazyOnce.check", Consts: map[string]string{"OnceKind": `"flag-after"`}, ExpectViolation: true})
 	c.MustTLC(TLCOpts{Module: "LazyOnce", Cfg: "LazyOnce.check", Consts: map[string]string{"OnceKind": `"cas-before"`}, ExpectViolation: true})
@@ -169,8 +185,8 @@ func runLazyOnce(c *Ctx, keyPrefix string, keep func(key string) bool) {
 		if c.Saturated() {
 			break
 		}
-		for v := 0; v < 4; v++ {
-			if !c.Thorough() && (i+v)%6 != 0 {
+		for vi, v := range variants {
+			if !c.Thorough() && (i+vi)%(len(variants)+2) != 0 {
 				continue
 			}
 			fs, inc := replayLazyOnce(b, v)
